@@ -5,6 +5,7 @@ import (
 	"math/rand"
 	"os"
 	"sort"
+	"strings"
 	"testing"
 
 	"pgregory.net/rapid"
@@ -129,6 +130,25 @@ func genC12() *rapid.Generator[Case] {
 		pos := rapid.IntRange(0, len(c.Steps)).Draw(t, "badpos")
 		steps := append([]Step(nil), c.Steps[:pos]...)
 		steps = append(steps, bad)
+		if (kind == "wfault" || kind == "sfault") && rapid.Bool().Draw(t, "echo") {
+			// what an application does after a failed commit: it writes again, here a prefix of the failed
+			// transaction with records of exactly the same sizes but, where the universe has one, another key of the
+			// same length and another value - so the new records end on record boundaries of the failed ones
+			echo := Step{K: "tx", Managed: true}
+			for _, op := range bad.Ops[:rapid.IntRange(1, len(bad.Ops)).Draw(t, "echon")] {
+				if op.K == "put" || op.K == "putts" {
+					for _, k := range kvKeys {
+						if len(k) == len(op.Key) && k != string(op.Key) {
+							op.Key = S(k)
+							break
+						}
+					}
+					op.V = S(strings.Repeat("r", len(op.V)))
+				}
+				echo.Ops = append(echo.Ops, op)
+			}
+			steps = append(steps, echo)
+		}
 		if rapid.Bool().Draw(t, "reopenafter") {
 			steps = append(steps, Step{K: "reopen"})
 		}
